@@ -556,7 +556,9 @@ def run(chk: Check, eng: Engine) -> None:
     # ---- R19-f ---------------------------------------------------------------
     fc = eng.cls(f"{NAV}.packetforecaster", "PacketForecaster")
     pr = eng.method(fc, "predict", inherited=False)
-    outer = [f for f in walk_local(pr.node) if isinstance(f, ast.For) and "consume" in norm(f.iter)]
+    # the loop over the partial derivations of the history: `for <tree>, <is_complete> in self._parser.<producer>(<history>)`
+    outer = [f for f in walk_local(pr.node) if isinstance(f, ast.For) and isinstance(f.target, ast.Tuple) and len(f.target.elts) == 2 and isinstance(f.iter, ast.Call)
+             and isinstance(f.iter.func, ast.Attribute) and "_parser" in norm(f.iter.func.value)]
     if len(outer) != 1:
         raise AnalysisError("PacketForecaster.predict: the loop over the partial derivations was not found")
     ol = outer[0]
@@ -589,6 +591,9 @@ from ..mutants import M  # noqa: E402
 _CNV = "src/fandango/io/navigation/visitor/continuing_nodevisitor.py"
 _PF = "src/fandango/io/navigation/packetforecaster.py"
 MUTANTS = [
+    M("message-node-memo-keyed-by-symbol-equality", "src/fandango/io/navigation/stategrammarconverter.py", "        self.seen_keys.add(symbol)\n        self.processed_keys.add(symbol)\n        return repl_node\n",
+      "        self.seen_keys.add(symbol)\n        self.processed_keys.add(symbol)\n        self._packet_nodes[node] = repl_node\n        return repl_node\n", "R19-j",
+      more=(("        if node.symbol.is_type(TreeValueType.STRING):\n            symbol = NonTerminal(\"<_packet_\" + node.symbol.name()[1:])\n", "        if node in self._packet_nodes:\n            return self._packet_nodes[node]\n        if node.symbol.is_type(TreeValueType.STRING):\n            symbol = NonTerminal(\"<_packet_\" + node.symbol.name()[1:])\n"),)),
     M("option-visit-not-overridden", _CNV, "    def visitOption(self, node: Option) -> bool:\n        self.on_enter_controlflow(f\"<__{node.id}>\")\n        ret = self.visitRepetitionType(node)\n        self.on_leave_controlflow()\n        return ret\n", "", "R19-a"),
     M("star-forgets-to-leave", _CNV, "    def visitStar(self, node: Star) -> bool:\n        self.on_enter_controlflow(f\"<__{node.id}>\")\n        ret = self.visitRepetitionType(node)\n        self.on_leave_controlflow()\n        return ret\n",
       "    def visitStar(self, node: Star) -> bool:\n        self.on_enter_controlflow(f\"<__{node.id}>\")\n        ret = self.visitRepetitionType(node)\n        return ret\n", "R19-b"),
